@@ -162,7 +162,7 @@ func Gen(store string) func(t *rapid.T) *Case {
 		switch c.Store {
 		case "durable":
 			c.Chunk = rapid.SampledFrom([]int{1, 150, 400, 1200, 0}).Draw(t, "chunk")
-		case "sqlite":
+		case "sqlite", "sqlitemem":
 			c.Batch = rapid.SampledFrom([]int{0, 0, 1, 2, 3, 7}).Draw(t, "batch")
 		}
 		n := rapid.IntRange(1, 60).Draw(t, "nops")
